@@ -11,7 +11,7 @@ from harness import core
 
 ID = 'C25'
 TITLE = 'Migrations are total and reach the current schema'
-PROPS = ['Props/C25', 'Props/C25_bodies', 'Props/C25_bodies2']
+PROPS = ['Props/C25', 'Props/C25_bodies', 'Props/C25_bodies2', 'Props/C25_bodies3', 'Props/C25_bodies4']
 RULE = ('Documents "at version K" are generated offline for every K in 0..SCHEMA_VERSION: the version-0 schema of '
         'test_migrations + the real migrations 1..K give the version-K metadata schema; every metadata table gets 0-3 '
         'rows of type-correct cells in the form create_migrations receives them (references to existing rows or 0, '
@@ -56,12 +56,12 @@ LEVEL_TEXT = ('kernel. Driver and interpreter, for ALL migration functions: a cu
               'is determined by the schema-action subsequence. Migration BODIES (all 46 modelled, each tied to the real '
               'emitted actions on every run): proved total - the body returns for every Text cell content (JSON parsing an '
               'oracle: any value or failure) and what it emits applies - on documents satisfying a stated, decidable, '
-              'type-correctness premise for migrations 4, 10, 15, 16, 25, 26, 28, 29, 30, 34, 35, 39, 40, 45 and for the 24 constant-body '
-              'migrations 5, 6, 8, 9, 11, 12, 13, 18, 19, 21, 22, 23, 24, 27, 32, 33, 36, 37, 38, 41, 42, 43, 44, 46 '
-              '(generic theorem on translated lists) = 38 of 46; migration 7: the body returns under the premise that '
-              'excludes names like Summary_Foo (C25_m7_body_total) and raises without it (C25_m7_refuted, the known '
-              'finding); migration 14: constant body. NOT proved total (modelled and tied only): 1, 2, 3, 17, 20, 31, '
-              'the application of what 7 and 14 emit, and that the metadata schema reached equals '
+              'type-correctness premise for the 19 hand-modelled migrations 1, 2, 3, 4, 10, 15, 16, 17, 20, 25, 26, 28, 29, 30, '
+              '34, 35, 39, 40, 45 and for the 25 constant-body migrations 5, 6, 8, 9, 11, 12, 13, 14, 18, 19, 21, 22, 23, 24, 27, '
+              '32, 33, 36, 37, 38, 41, 42, 43, 44, 46 (generic theorems on the translated lists) = 44 of 46; migration 7: the '
+              'body returns under the premise that excludes names like Summary_Foo (C25_m7_body_total) and raises '
+              'without it (C25_m7_refuted, the known finding); migration 31: the body returns (C25_m31_body_total). NOT '
+              'proved: that the RenameTable/RemoveColumn/... actions emitted by 7 and 31 apply (tied only); nor that the metadata schema reached equals '
               'schema_create_actions() (searched on generated documents of every version).')
 LEVEL_NOTE = ('Trusted: Coq kernel; the hand-written models (each tied by exact replay every run); the oracles json, re, '
               'identifiers.pick_*_ident, float division; the unmodelled loading prelude. The premises of the totality '
